@@ -29,6 +29,7 @@ def main():
     ap.add_argument("--tier", default="quick")
     ap.add_argument("--seed", default="0")
     ap.add_argument("--keep", action="store_true")
+    ap.add_argument("--record", help="seeded/<name> directory whose meta.json receives the result")
     a = ap.parse_args()
     patch = os.path.abspath(a.patch)
     base = tempfile.mkdtemp(prefix="seedrun_", dir="/tmp")
@@ -56,6 +57,20 @@ def main():
             lines = [l for l in r.stdout.splitlines() if l.startswith(("VIOLATION", "KNOWN-FINDING"))]
             summ = [l for l in r.stdout.splitlines() if l.startswith(p + " ")]
             print("%s exit=%d %s | %s" % (p, r.returncode, " ; ".join(lines) or "-", summ[-1] if summ else r.stdout[-300:].replace("\n", " ")))
+            if a.record:
+                import json, time
+                mp = os.path.join(a.record, "meta.json")
+                m = json.load(open(mp))
+                vl = [l for l in lines if l.startswith("VIOLATION")]
+                m.setdefault("checks", {})[p] = {
+                    "cmd": "./check %s --tier %s  (VERIF_SEED=%s) against the patched tree" % (p, a.tier, a.seed),
+                    "exit": r.returncode,
+                    "verdict": ("caught: concrete failing input" if vl and "no-failing-input-found" not in vl[0]
+                                else "caught: broken proof/correspondence, no-failing-input-found" if vl
+                                else "MISSED" if r.returncode == 0 else "check error"),
+                    "violation_line": (vl[0].split(" replay=")[0] + (" no-failing-input-found" if "no-failing-input-found" in vl[0] else "")) if vl else None,
+                    "when": time.strftime("%Y-%m-%d %H:%M"), "verif_commit": sh("git -C /verif rev-parse --short HEAD").stdout.strip()}
+                json.dump(m, open(mp, "w"), indent=1)
             for l in lines:
                 if "replay=" in l:
                     rp = l.split("replay=")[1].split()[0]
